@@ -857,6 +857,10 @@ func (bn *branchNode) getNextHashAndKey(key []byte) (bool, []byte, []byte) {
 		return false, nil, nil
 	}
 
+	if int(key[0]) >= len(bn.EncodedChildren) {
+		return false, nil, nil
+	}
+
 	wantHash := bn.EncodedChildren[key[0]]
 	nextKey := key[1:]
 
